@@ -286,17 +286,27 @@ func Package(path string, files []string) (*PkgInfo, error) {
 	return pi, nil
 }
 
-func getNamedImports(gocmd, dir string, pkgs map[string]string) ([]*Import, error) {
+// namedImport is a mage:import with an alias.
+type namedImport struct {
+	path, alias string
+}
+
+func getNamedImports(gocmd, dir string, pkgs map[namedImport]bool) ([]*Import, error) {
 	var imports []*Import
 	// iterate in sorted order, the unique names given to the imports (and so
 	// the generated mainfile) must not depend on map iteration order.
-	paths := make([]string, 0, len(pkgs))
-	for pkg := range pkgs {
-		paths = append(paths, pkg)
+	named := make([]namedImport, 0, len(pkgs))
+	for ni := range pkgs {
+		named = append(named, ni)
 	}
-	sort.Strings(paths)
-	for _, pkg := range paths {
-		alias := pkgs[pkg]
+	sort.Slice(named, func(i, j int) bool {
+		if named[i].path != named[j].path {
+			return named[i].path < named[j].path
+		}
+		return named[i].alias < named[j].alias
+	})
+	for _, ni := range named {
+		pkg, alias := ni.path, ni.alias
 		debug.Printf("getting import package %q, alias %q", pkg, alias)
 		imp, err := getImportFrom(dir, gocmd, pkg, alias)
 		if err != nil {
@@ -427,7 +437,8 @@ func setNamespaces(pi *PkgInfo) {
 }
 
 func setImports(gocmd, dir string, pi *PkgInfo) error {
-	importNames := map[string]string{}
+	// the same package may be imported under several aliases
+	importNames := map[namedImport]bool{}
 	rootImports := []string{}
 	fileNames := make([]string, 0, len(pi.AstPkg.Files))
 	for name := range pi.AstPkg.Files {
@@ -453,7 +464,7 @@ func setImports(gocmd, dir string, pi *PkgInfo) error {
 				}
 				if alias != "" {
 					debug.Printf("found %s: %s (%s)", importTag, name, alias)
-					importNames[name] = alias
+					importNames[namedImport{name, alias}] = true
 				} else {
 					debug.Printf("found %s: %s", importTag, name)
 					rootImports = append(rootImports, name)
